@@ -31,6 +31,13 @@ def operand(t):
     return s if t["k"] in ("id", "int") else "(" + s + ")"
 
 
+def sources(chk, step=1):
+    """the Mamba source of every typed expression tree of family e2e (also used by C02: whatever is accepted must compile)"""
+    r = vlib.tlc("MC_PyExpr", "MC_PyExpr.cfg", constants={"Family": '"e2e"'}, xss="1g")
+    chk.add_tlc(r)
+    return ["def a: Int := 7\ndef t: Bool := True\ndef r: %s := %s\n" % (c["ty"], mamba(c["tree"])) for c in r.records[::step]]
+
+
 def run(chk, tier, vh):
     import pyexpr
     r = vlib.tlc("MC_PyExpr", "MC_PyExpr.cfg", constants={"Family": '"e2e"'}, xss="1g")
